@@ -1,4 +1,6 @@
+import asyncio
 import collections
+import functools
 
 
 def queued(evaluator_class):  # noqa: D417
@@ -21,19 +23,37 @@ def queued(evaluator_class):  # noqa: D417
 
         self.queue = collections.deque(queue[:])
         self.queue_pop_per_task = queue_pop_per_task
+        self._queue_sem = None
+        self._queue_sem_loop = None
+
+    def _get_queue_semaphore(self):
+        # One permit per group of ``queue_pop_per_task`` resources. The semaphore is bound to
+        # the event loop in use, therefore it is renewed when the loop changes (e.g., after close).
+        if self._queue_sem is None or self._queue_sem_loop is not self.loop:
+            self._queue_sem = asyncio.Semaphore(len(self.queue) // self.queue_pop_per_task)
+            self._queue_sem_loop = self.loop
+        return self._queue_sem
 
     async def execute(self, job):
-        dequed = [self.queue.popleft() for _ in range(self.queue_pop_per_task)]
-        self.run_function_kwargs["dequed"] = dequed
-
-        job = await evaluator_class.execute(self, job)
-        job.metadata["dequed"] = ",".join((str(item) for item in dequed))
-
-        self.queue.extend(dequed)
+        # Wait for a group of resources to be available, then bind it to this job only
+        async with self._get_queue_semaphore():
+            dequed = [self.queue.popleft() for _ in range(self.queue_pop_per_task)]
+            run_function = job.run_function
+            job.run_function = functools.partial(run_function, dequed=dequed)
+            try:
+                job = await evaluator_class.execute(self, job)
+            finally:
+                job.run_function = run_function
+                self.queue.extend(dequed)
+            job.metadata["dequed"] = ",".join((str(item) for item in dequed))
 
         return job
 
-    cls_attrs = {"__init__": __init__, "execute": execute}
+    cls_attrs = {
+        "__init__": __init__,
+        "_get_queue_semaphore": _get_queue_semaphore,
+        "execute": execute,
+    }
 
     queued_evaluator_class = type(
         f"Queued{evaluator_class.__name__}", (evaluator_class,), cls_attrs
